@@ -570,10 +570,11 @@ def isoptionaltype(obj: type[_OT]) -> compat.TypeIs[type[tp.Optional[_OT]]]:
     False
     """
     args = getattr(obj, "__args__", ())
-    tname = name(origin(obj))
+    orig = origin(obj)
     nullarg = next((a for a in args if a in (type(None), None)), ...)
-    isoptional = tname == "Optional" or (
-        nullarg is not ... and tname in ("Union", "UnionType", "Literal")
+    # Identity, not the name: a user class may be called `Union` or `Optional`.
+    isoptional = orig is tp.Optional or (
+        nullarg is not ... and orig in (tp.Union, types.UnionType, tp.Literal)
     )
     return isoptional
 
@@ -583,8 +584,7 @@ _OT = tp.TypeVar("_OT")
 
 @compat.cache
 def isuniontype(obj: type) -> compat.TypeIs[tp.Union]:
-    n = name(origin(obj))
-    return n in ("Union", "UnionType")
+    return origin(obj) in (tp.Union, types.UnionType)
 
 
 @compat.cache
